@@ -174,6 +174,18 @@ def gen_value_cases(rng, tier):
                                        ("PT", [ONE, ONE, ONE, "i1"])] + std_tail()))
     proto = [("x", "D"), ("y", "D"), ("z", "D"), ("ts", "S/5/1/3ff0000000000000/0000000000000000")]
     cases.append(("value:min-gt-max", [("NEW", "g"), ("PC", "pc", proto), ("PT", [ONE, ONE, ONE, "s3"])] + std_tail()))
+    # float limits that are NaN or unordered (repair eaf8fc6): the prototype must be refused; ordered ones
+    # (also equal, also -0/+0, also infinities) accepted
+    xyz3 = [("x", "D"), ("y", "D"), ("z", "D")]
+    for ty in ("D/3ff0000000000000/0000000000000000", "D/7ff8000000000000/-", "D/-/7ff0000000000001", "D/fff8000000000001/3ff0000000000000",
+               "F/3f800000/00000000", "F/7fc00000/-", "F/-/ffc00001", "F/7f800000/ff800000",
+               "D/3ff0000000000000/3ff0000000000000", "D/8000000000000000/0000000000000000", "D/fff0000000000000/7ff0000000000000",
+               "F/00000000/3f800000", "F/80000000/00000000", "F/-/3f800000", "D/0000000000000000/-"):
+        for nm in ("in", "ts"):
+            v = "f00000000" if ty[0] == "F" else "d0000000000000000"
+            cases.append(("value:float-limits", [("NEW", "g"), ("PC", "pc", xyz3 + [(nm, ty)]), ("PT", [ONE, ONE, ONE, v])] + std_tail()))
+    cases.append(("value:float-limits", [("NEW", "g"), ("PC", "pc", [("x", "D/4000000000000000/3ff0000000000000"), ("y", "D"), ("z", "D")]),
+                                         ("PT", [ONE, ONE, ONE])] + std_tail()))
     # random prototypes, points valid with probability 2/3, one component damaged otherwise
     for _ in range(150 if tier == "quick" else 4000):
         p = gen.rand_proto(rng, small=rng.chance(2, 3))
